@@ -378,7 +378,9 @@ MULTI = {"ATTENDEE": ["mailto:a@x", "mailto:b@x", "mailto:c@x"], "COMMENT": ["on
          "CONTACT": ["c1", "c2", "c3"], "RELATED-TO": ["r1", "r2", "r3"], "REQUEST-STATUS": ["2.0;ok", "3.1;bad", "2.1;x"],
          "RESOURCES": ["r1", "r2", "r3"], "CATEGORIES": [["a"], ["b", "c"], ["d"]], "RRULE": [{"freq": "daily"}, {"freq": "weekly"}, {"freq": "yearly"}],
          "EXDATE": [[date(2024, 1, 1)], [date(2024, 1, 2)], [date(2024, 1, 3)]], "RDATE": [[date(2024, 2, 1)], [date(2024, 2, 2)], [date(2024, 2, 3)]],
-         "FREEBUSY": None, "X-MULTI": ["x1", "x2", "x3"]}
+         "FREEBUSY": None, "X-MULTI": ["x1", "x2", "x3"],
+         # a falsy first value must not be overwritten by the second
+         "DESCRIPTION": ["", "d2", "d3"], "X-EMPTY": ["", "", "e3"]}
 
 
 def run_multi(case):
@@ -413,7 +415,7 @@ def run_multi(case):
 
 
 # ------------------------------------------------------------------ (C) call sequences
-CALLS = (("add", "summary", "s1"), ("add", "comment", "c1"), ("add", "comment", "c2"), ("add", "COMMENT", "c3"),
+CALLS = (("add", "summary", "s1"), ("add", "comment", ""), ("add", "comment", "c2"), ("add", "COMMENT", "c3"),
          ("add", "attendee", "mailto:a@x"), ("add", "x-foo", "f1"), ("add", "rdate", [date(2024, 1, 1)]),
          ("set", "SUMMARY", "s2"), ("set", "X-FOO", "f2"), ("sub", "VALARM"), ("sub", "X-SUB"), ("up",))
 
